@@ -13,7 +13,156 @@ from harness import pseudo_fixtures as pf
 from harness import store_fixtures as sf
 from harness.pseudo_fixtures import IDX, UNIVERSE
 
-MODEL_MODULES = ['SkyllhModel.Model.Store', 'SkyllhModel.Model.StoreIO', 'SkyllhModel.Model.PseudoData']
+MODEL_MODULES = ['SkyllhModel.Model.Store', 'SkyllhModel.Model.StoreIO', 'SkyllhModel.Model.PseudoData', 'SkyllhModel.Model.PseudoDataR7',
+                 'SkyllhModel.Generated.C07']
+
+# Python callables that have an executable Lean counterpart which the c07_* theorems are about and which run(ctx) compares with
+# the real callable on every run (the random draws / scrambled values / drawn indices are inputs of the model)
+_DFRA = 'skyllh/core/storage.py::DataFieldRecordArray.'
+_ANA = 'skyllh/core/analysis.py::'
+_BG = 'skyllh/core/background_generation.py::'
+MODEL_MAP = {
+    'skyllh/core/scrambling.py::DataScrambler.scramble_data': ['Pseudo.scrambleData', 'Pseudo.compile7'],
+    'skyllh/core/scrambling.py::UniformRAScramblingMethod.scramble': ['Pseudo.uniformRA', 'Pseudo.documented', 'Pseudo.scrSets'],
+    'skyllh/core/scrambling.py::UniformRAScramblingMethod.ra_range': ['Pseudo.raRangeOf'],
+    'skyllh/core/scrambling.py::TimeScramblingMethod.scramble': ['Pseudo.documented', 'Pseudo.scrSets'],
+    'skyllh/i3/scrambling.py::I3TimeScramblingMethod.scramble': ['Pseudo.documented', 'Pseudo.scrSets'],
+    'skyllh/i3/scrambling.py::I3SeasonalVariationTimeScramblingMethod.scramble': ['Pseudo.documented', 'Pseudo.scrSets'],
+    'skyllh/i3/background_generation.py::FixedScrambledExpDataI3BkgGenMethod.generate_events': ['Pseudo.compile7', 'Pseudo.scrambleData', 'Pseudo.compile'],
+    _BG + 'MCDataSamplingBkgGenMethod.generate_events': ['Pseudo.compile', 'Pseudo.cachePlan', 'Pseudo.nBkgRaw', 'Pseudo.nBkgSelected'],
+    _BG + 'MCDataSamplingBkgGenMethod.change_shg_mgr': ['Pseudo.compile'],
+    _BG + 'CompositeMCDataSamplingBkgGenMethod.generate_events': ['Pseudo.compile', 'Pseudo.compositePlan'],
+    _ANA + 'Analysis.generate_signal_events': ['Pseudo.injectPlan', 'Pseudo.compile7'],
+    _ANA + 'Analysis.do_trial_with_given_bkg_and_sig_pseudo_data': ['Pseudo.injectPlan', 'Pseudo.compile7', 'Pseudo.gstep7', 'Pseudo.runHE'],
+    _ANA + 'Analysis.do_trial': ['Pseudo.doTrial'],
+    _ANA + 'LLHRatioAnalysis.unblind': ['Pseudo.compile'],
+    'skyllh/core/trialdata.py::TrialDataManager.initialize_trial': ['Pseudo.trialOps', 'Pseudo.sortOps'],
+    'skyllh/core/trialdata.py::TrialDataManager.calculate_global_fitparam_data_fields': ['Pseudo.setItems'],
+    'skyllh/core/signal_generator.py::MCMultiDatasetSignalGenerator.generate_signal_events': ['Pseudo.compile'],
+    # the container operations every history is made of (heap model shared with C16, compared after every operation)
+    _DFRA + 'copy': ['Store.copyCols', 'Store.tableOp'],
+    _DFRA + 'append': ['Store.appendCol', 'Store.npAppend', 'Store.tableOp'],
+    _DFRA + 'get_selection': ['Store.selColE', 'Store.selCol', 'Store.selPositions'],
+    _DFRA + 'set_selection': ['Store.srcCol', 'Store.putCol', 'Store.putSel'],
+    _DFRA + '__setitem__': ['Store.setItemCol', 'Store.tableOp'],
+    _DFRA + 'tidy_up': ['Store.tableOp'],
+    _DFRA + 'sort_by_field': ['Store.sortCol', 'Store.isPerm', 'Store.nondecr'],
+    _DFRA + 'indices': ['Store.idxUpd'],
+}
+
+# ------------------------------------------------------------------------------------------
+# tie to the current source (round 7): Generated/C07.lean
+
+SCR_CLASSES = [('uniformRA', 'skyllh/core/scrambling.py', 'UniformRAScramblingMethod', ['ra']),
+               ('i3time', 'skyllh/i3/scrambling.py', 'I3TimeScramblingMethod', ['time', 'ra']),
+               ('seasonal', 'skyllh/i3/scrambling.py', 'I3SeasonalVariationTimeScramblingMethod', ['time', 'ra']),
+               ('time', 'skyllh/core/scrambling.py', 'TimeScramblingMethod', ['time', 'ra', 'dec'])]
+
+
+def _assigned_fields(relpath, cls):
+    """names f of every `data['f'] = …` / `(data['f'], data['g']) = …` / `data['f'] += …` in cls.scramble"""
+    import ast
+    from harness import extract
+    c = extract.find_class(extract.parse(relpath), cls)
+    if c is None:
+        raise LookupError('class %s not found in %s' % (cls, relpath))
+    f = None
+    for node in c.body:
+        if isinstance(node, ast.FunctionDef) and node.name == 'scramble':
+            f = node
+    if f is None:
+        raise LookupError('%s.scramble not found' % cls)
+    names = []
+
+    def targets(t):
+        if isinstance(t, (ast.Tuple, ast.List)):
+            for e in t.elts:
+                targets(e)
+        elif isinstance(t, ast.Subscript) and isinstance(t.value, ast.Name) and t.value.id == 'data':
+            key = ast.literal_eval(t.slice)
+            if not isinstance(key, str):
+                raise LookupError('non-literal key in %s.scramble' % cls)
+            names.append(key)
+    for node in ast.walk(f):
+        if isinstance(node, ast.Assign):
+            for t in node.targets:
+                targets(t)
+        elif isinstance(node, (ast.AugAssign, ast.AnnAssign)):
+            targets(node.target)
+    if not names:
+        raise LookupError('no data[...] assignment found in %s.scramble' % cls)
+    return names
+
+
+def _fixed_bkg_copy():
+    """the literal of the `copy=` keyword in `self._data_scrambler.scramble_data(...)` of the fixed background generation method"""
+    import ast
+    from harness import extract
+    c = extract.find_class(extract.parse('skyllh/i3/background_generation.py'), 'FixedScrambledExpDataI3BkgGenMethod')
+    f = extract.find_func(c, 'generate_events')
+    for node in ast.walk(f):
+        if isinstance(node, ast.Call) and isinstance(node.func, ast.Attribute) and node.func.attr == 'scramble_data':
+            # the keyword decides only when the stored array itself is handed over (`data=data.exp`); a method that scrambles its
+            # own copy (`data=exp_events`, copy=False) is equally fine: then nothing is extracted (recorded value, the correspondence decides)
+            arg = [k.value for k in node.keywords if k.arg == 'data']
+            if not (arg and isinstance(arg[0], ast.Attribute) and arg[0].attr == 'exp' and isinstance(arg[0].value, ast.Name)):
+                raise LookupError('the array handed to scramble_data is not literally data.exp: the copy= keyword alone does not decide')
+            for k in node.keywords:
+                if k.arg == 'copy':
+                    v = ast.literal_eval(k.value)
+                    if isinstance(v, bool):
+                        return v
+            raise LookupError('scramble_data call without a literal copy= keyword')
+    raise LookupError('no scramble_data call')
+
+
+def _default_ra_range():
+    """the tuple assigned to `ra_range` when the setter of UniformRAScramblingMethod.ra_range gets None"""
+    import ast
+    from harness import extract
+    c = extract.find_class(extract.parse('skyllh/core/scrambling.py'), 'UniformRAScramblingMethod')
+    for fn in c.body:
+        if isinstance(fn, ast.FunctionDef) and fn.name == 'ra_range':
+            for node in ast.walk(fn):
+                if isinstance(node, ast.Assign) and any(isinstance(t, ast.Name) and t.id == 'ra_range' for t in node.targets) \
+                        and isinstance(node.value, ast.Tuple) and len(node.value.elts) == 2:
+                    return tuple(float(extract.literal(e)) for e in node.value.elts)
+    raise LookupError('default ra_range tuple not found')
+
+
+def generated(ctx):
+    import math
+    from harness import extract
+    copy = True
+    try:
+        copy = _fixed_bkg_copy()
+    except Exception as e:  # noqa
+        ctx.note('C07: could not extract the copy= keyword of the fixed background generation method (%s); using recorded value True' % e)
+        ctx.proof['generated_fallbacks'].append('fixedBkgCopy')
+    rng_ = (0.0, 2 * math.pi)
+    try:
+        rng_ = _default_ra_range()
+    except Exception as e:  # noqa
+        ctx.note('C07: could not extract the default ra_range (%s); using recorded value (0, 2*pi)' % e)
+        ctx.proof['generated_fallbacks'].append('defaultRaRange')
+    lines = ['-- generated by harness/props/c07.py from the current skyllh source; do not edit', 'namespace Gen.C07',
+             '/-- `copy=` in `FixedScrambledExpDataI3BkgGenMethod.generate_events`: `scramble_data(..., data=data.exp, copy=<this>)` -/',
+             'def fixedBkgCopy : Bool := %s' % ('true' if copy else 'false'),
+             '/-- the range `UniformRAScramblingMethod` uses for `ra_range=None` -/',
+             'def defaultRaLo {F : Type} [OfScientific F] : F := %s' % extract.lean_float(rng_[0]),
+             'def defaultRaHi {F : Type} [OfScientific F] : F := %s' % extract.lean_float(rng_[1])]
+    for nm, relpath, cls, recorded in SCR_CLASSES:
+        names = recorded
+        try:
+            names = _assigned_fields(relpath, cls)
+        except Exception as e:  # noqa
+            ctx.note('C07: could not extract the fields assigned by %s.scramble (%s); using recorded value %r' % (cls, e, recorded))
+            ctx.proof['generated_fallbacks'].append('assigned ' + nm)
+        nums = sorted(set(IDX.get(n, 900 + i) for i, n in enumerate(names)))
+        lines += ['/-- the fields (numbers of the harness universe, sorted) `%s.scramble` assigns into `data`: %s -/' % (cls, ', '.join(names)),
+                  'def assigned_%s : List Nat := [%s]' % (nm, ', '.join(str(x) for x in nums))]
+    lines += ['end Gen.C07', '']
+    return '\n'.join(lines)
 
 
 def usnap(a):
@@ -40,6 +189,7 @@ class Runner:
     def __init__(self, spec):
         self.w = pf.World(spec)
         self.hs = []                 # generated containers (handles)
+        self.kind = []               # 'bkg' (carries every field a scrambling method reads) | 'sig'
         self.cache_built = False
         self.lines = ['reset', 'init %s %s' % (pf.cols_tok((n, self.w.exp[n]) for n in self.w.exp.field_name_list),
                                                  pf.cols_tok((n, self.w.mc[n]) for n in self.w.mc.field_name_list))]
@@ -109,7 +259,8 @@ class Runner:
                 (nl, evl) = w.ana.generate_background_events(rss)
                 self.last_count = (int(nl[0]), None)
                 new = evl[0]
-                lines.append('genFixed %s %s' % (op['scr'], pf.cols_tok((f, new[f]) for f in pf.DOCUMENTED[op['scr']])))
+                # round 7: the model takes the copy= keyword of the method from the current source (Generated/C07.lean)
+                lines.append('fixedBkg %s %s' % (op['scr'], pf.cols_tok((f, new[f]) for f in pf.DOCUMENTED[op['scr']])))
             elif k == 'genMC':
                 mcv = w.spec['mc_variant']
                 w.set_bkg_method(w.mc_method)
@@ -203,6 +354,80 @@ class Runner:
                 w.ana.do_trial_with_given_pseudo_data(seed=1, mean_n_sig=0., n_sig=0, n_events_list=[len(e)], events_list=[e], minimizer_rss=rss)
                 lines[-1] = self.eval_line()
                 lines = self.fix_perm(lines)
+            elif k == 'scrambleGen':
+                # DataScrambler.scramble_data called on a generated background, with either value of `copy`
+                cands = [i for i, kd in enumerate(self.kind) if kd == 'bkg']
+                if not cands:
+                    return ('ok', None, None)
+                hi = cands[op['h'] % len(cands)]
+                e = self.hs[hi]
+                before = {n: (e[n].dtype, e[n].tobytes()) for n in e.field_name_list}
+                self.last_scr = None
+                # the form of the flag (bool / int / numpy bool) is chosen after its value and holds it exactly
+                flag = {'bool': bool, 'int': int, 'np': np.bool_}[op.get('copy_form', 'bool')](op['copy'])
+                out = w.DataScrambler(w.scr[op['scr']]()).scramble_data(rss, w.ds, e, copy=flag)
+                if out is not e:
+                    new = out
+                self.last_scr = (op['scr'], out, before, e)
+                lines.append('scramble @%d %d %s %s' % (hi, 1 if op['copy'] else 0, op['scr'], pf.cols_tok((f, out[f]) for f in pf.DOCUMENTED[op['scr']])))
+            elif k == 'inject':
+                # Analysis.generate_signal_events on given pseudo data (None | a generated container), mean_n_sig = 0 included
+                hi = None if (op['b'] is None or not self.hs) else op['b'] % len(self.hs)
+                b = None if hi is None else self.hs[hi]
+                if op['k'] == 0:
+                    lines.append('inject %s N' % ('N' if hi is None else '@%d' % hi))
+                else:
+                    sig = w.make_signal(w.RSS(seed=op.get('seed', 1)), op['k'])
+                    w.sig_uid += op['k']          # the analysis draws the same events again below
+                    lines.append('inject %s %s' % ('N' if hi is None else '@%d' % hi, pf.cols_tok((n, sig[n]) for n in sig.field_name_list)))
+                n_before = 0 if b is None else len(b)
+                (n_sig, nl, evl) = w.ana.generate_signal_events(rss, mean_n_sig=op['k'], sig_kwargs={}, n_events_list=[n_before], events_list=[b])
+                self.last_inject = (n_before, op['k'], int(nl[0]), evl[0], b)
+                if b is None and evl[0] is not None:
+                    new = evl[0]
+            elif k == 'trialBkgSig7':
+                # do_trial_with_given_bkg_and_sig_pseudo_data with None background / None signal / both given
+                bi = None if (op['b'] is None or not self.hs) else op['b'] % len(self.hs)
+                si = None if (op['s'] is None or not self.hs) else op['s'] % len(self.hs)
+                b = None if bi is None else self.hs[bi]
+                s_ = None if si is None else self.hs[si]
+                self._pending = None
+                try:
+                    if b is not None and s_ is not None:
+                        merged = b.copy()
+                        merged.append(s_)
+                    else:
+                        merged = b if b is not None else s_
+                    cfg = self.cfg_tokens(merged) if merged is not None else '- N N -'
+                except KeyError:
+                    cfg = '- N N -'           # the merge raises: the model never reads the trial configuration
+                    self._pending = None
+                lines.append('trialBkgSig %s %s %s %%EVAL%%' % ('N' if bi is None else '@%d' % bi, 'N' if si is None else '@%d' % si, cfg))
+                w.ana.do_trial_with_given_bkg_and_sig_pseudo_data(
+                    seed=1, mean_n_sig=0., n_sig=0 if s_ is None else len(s_), n_bkg_events_list=[0 if b is None else len(b)],
+                    n_sig_events_list=[0 if s_ is None else len(s_)], bkg_events_list=[b], sig_events_list=[s_], minimizer_rss=rss)
+                lines[-1] = lines[-1].replace('%EVAL%', self.eval_line().split(' ', 1)[1])
+                lines = self.fix_perm(lines)
+            elif k == 'doTrialFixed':
+                # Analysis.do_trial end to end with the fixed (scrambled experimental data) method, compared through tdm.events.  The
+                # intermediate arrays are locals of the analysis: a twin random state gives the background and the signal it will
+                # generate from this seed (the background method, then the stub signal generator, draw from the same stream)
+                scr = op['scr']
+                w.set_bkg_method(w.fixed[scr])
+                rss2 = w.RSS(seed=op.get('seed', 1))
+                (_, bkg_t) = w.fixed[scr].generate_events(rss2, w.ds, w.data)
+                sets = pf.cols_tok((f, bkg_t[f]) for f in pf.DOCUMENTED[scr])
+                if op['k'] > 0:
+                    sig_t = w.make_signal(rss2, op['k'])
+                    w.sig_uid += op['k']          # the analysis draws the same events again below
+                    sigtok = pf.cols_tok((n, sig_t[n]) for n in sig_t.field_name_list)
+                    bkg_t.append(sig_t)
+                else:
+                    sigtok = 'N'
+                lines.append('doTrial %s %s %s %s %%EVAL%%' % (scr, sets, sigtok, self.cfg_tokens(bkg_t)))
+                w.ana.do_trial(rss, mean_n_sig=op['k'])
+                lines[-1] = lines[-1].replace('%EVAL%', self.eval_line().split(' ', 1)[1])
+                lines = self.fix_perm(lines)
             elif k == 'changeShg':
                 # the real invalidation of the MC cache (MCDataSamplingBkgGenMethod.change_shg_mgr)
                 w.mc_method.change_shg_mgr(w.shg)
@@ -224,9 +449,12 @@ class Runner:
             else:
                 raise AssertionError(k)
         except (KeyError, ValueError, IndexError, TypeError) as e:
+            if lines:
+                lines = [ln.replace('%EVAL%', '-').replace('%PERM%', '-') for ln in lines]
             return ('err:' + type(e).__name__, lines, None)
         if new is not None:
             self.hs.append(new)
+            self.kind.append('bkg' if k in ('genFixed', 'genMC', 'genComp', 'scrambleGen') else 'sig')
         return ('ok', lines, new)
 
     def observe(self):
@@ -252,8 +480,10 @@ def gen_history(rng, length, with_dotrial=False, spec=None):
         ks = ['genFixed', 'genFixed', 'genMC', 'genMC', 'genMC', 'genComp', 'genComp', 'genSig', 'genSigReal', 'genSigReal', 'unblind', 'evaluate', 'changeShg']
         if with_dotrial:
             ks += ['genSigRealRanges']
+        ks += ['inject', 'trialBkgSig7', 'doTrialFixed', 'doTrialFixed']
         if nh:
-            ks += ['sigMerge', 'sigMerge', 'initTrial', 'doTrialGiven', 'trialBkgSig', 'trialBkgSig']
+            ks += ['sigMerge', 'sigMerge', 'initTrial', 'doTrialGiven', 'trialBkgSig', 'trialBkgSig', 'scrambleGen', 'scrambleGen', 'inject',
+                   'trialBkgSig7', 'trialBkgSig7']
         if with_dotrial:
             ks += ['doTrial', 'doTrial']
         k = rng.choice(ks)
@@ -276,6 +506,22 @@ def gen_history(rng, length, with_dotrial=False, spec=None):
         elif k == 'sigMerge':
             op['b'] = rng.randrange(nh)
             op['k'] = rng.choice([0, 1, 2])
+        elif k == 'doTrialFixed':
+            op['scr'] = rng.choice(scrs)
+            op['k'] = rng.choice([0, 0, 1, 2, 3])
+        elif k == 'scrambleGen':
+            op['h'] = rng.randrange(100)
+            op['copy'] = rng.random() < 0.5
+            op['copy_form'] = rng.choice(['bool', 'bool', 'int', 'np'])
+            op['scr'] = rng.choice(scrs)
+            nh += 1 if op['copy'] else 0
+        elif k == 'inject':
+            op['b'] = rng.choice([None, rng.randrange(100)]) if nh else None
+            op['k'] = rng.choice([0, 1, 2, 3])
+            nh += 1 if (op['b'] is None and op['k']) else 0
+        elif k == 'trialBkgSig7':
+            op['b'] = rng.choice([None, rng.randrange(100), rng.randrange(100)]) if nh else None
+            op['s'] = rng.choice([None, rng.randrange(100), rng.randrange(100)]) if nh else None
         elif k == 'trialBkgSig':
             op['b'], op['s'] = rng.randrange(nh), rng.randrange(nh)
         elif k in ('initTrial', 'doTrialGiven'):
@@ -299,11 +545,14 @@ def frame_check(case, counts=None):
             res = r.apply(op)
         except IndexError:
             return None       # malformed (shrunk) history: a handle that does not exist
-        scr = op.get('scr') if op['op'] == 'genFixed' else (case['spec']['mc_variant']['scr'] if op['op'] in ('genMC', 'genComp') else None)
+        scr = op.get('scr') if op['op'] in ('genFixed', 'scrambleGen') else (case['spec']['mc_variant']['scr'] if op['op'] in ('genMC', 'genComp') else None)
         if scr is not None and res[0] == 'ok' and res[2] is not None:
             bad = ra_range_check(case['spec'], scr, res[2]['ra'])
             if bad:
                 return ('ra-range', op['op'], k, 'step %d (%s): %s' % (k, op['op'], bad))
+        bad = r7_check(r, op, res, case['spec'])
+        if bad:
+            return (bad[0], op['op'], k, 'step %d (%s): %s' % (k, op['op'], bad[1]))
         bad = fieldset_check(r, op, res)
         if bad:
             return ('field-set', op['op'], k, 'step %d (%s): %s' % (k, op['op'], bad))
@@ -329,6 +578,44 @@ def frame_check(case, counts=None):
                 return ('stored-data-changed', op['op'], k,
                         'step %d (%s, result %s): stored %s is altered: changed fields %r, added %r, removed %r%s, length %d' % (
                             k, op['op'], res[0], nm, changed, added, removed, ', field order changed' if order else '', len(a)))
+    return None
+
+
+def r7_check(r, op, res, spec):
+    """round 7, implementation only: the contract of DataScrambler.scramble_data for either value of `copy` on a generated
+    array, and of the signal-injection loop of Analysis.generate_signal_events (None events, mean_n_sig == 0, append)"""
+    if res[0] != 'ok':
+        return None
+    if op['op'] == 'scrambleGen' and getattr(r, 'last_scr', None):
+        scr, out, before, e = r.last_scr
+        doc = pf.DOCUMENTED[scr]
+        if op['copy'] and out is e:
+            return ('contract', 'scramble_data(copy=True) returned the array it was given')
+        if not op['copy'] and out is not e:
+            return None                 # (an implementation that copies although it need not: not observable through the data)
+        bad = ra_range_check(spec, scr, out['ra'])
+        if bad:
+            return ('ra-range', bad)
+        if len(out) != len(e):
+            return ('contract', 'scramble_data changed the number of events from %d to %d' % (len(e), len(out)))
+        for n, (dt, raw) in before.items():
+            if n not in out:
+                return ('contract', 'field %r is missing after scramble_data' % n)
+            if n not in doc and (out[n].dtype != dt or out[n].tobytes() != raw):
+                return ('contract', 'field %r is not documented to change by %s scrambling but differs after scramble_data(copy=%s)' % (n, scr, op['copy']))
+            if op['copy']:
+                if e[n].dtype != dt or e[n].tobytes() != raw:
+                    return ('contract', 'scramble_data(copy=True) altered field %r of the array it was given' % n)
+                if out[n].size and np.shares_memory(out[n], e[n]):
+                    return ('contract', 'field %r of the scrambled copy shares memory with the array that was given' % n)
+    if op['op'] == 'inject' and getattr(r, 'last_inject', None):
+        n_before, k, n_after, ev, b = r.last_inject
+        if k == 0:
+            if ev is not b or n_after != n_before:
+                return ('event-count', 'generate_signal_events(mean_n_sig=0) changed the pseudo data (%d -> %d events reported)' % (n_before, n_after))
+        elif ev is None or n_after != len(ev) or (b is not None and ev is not b):
+            return ('event-count', 'generate_signal_events reports %d events, the pseudo data hold %s (given: %s with %d events)' % (
+                n_after, 'None' if ev is None else len(ev), 'None' if b is None else 'an array', n_before))
     return None
 
 
@@ -522,6 +809,9 @@ def ra_model_request(case, n):
     from skyllh.core.random import RandomStateService
     lo, hi = pf.ra_range_of(case['spec'], case['scr'])
     us = RandomStateService(seed=case['seed']).random.random_sample(n)
+    if case['scr'] == 'uniform':
+        # ra_range=None: the model takes the default range from the current source (Generated/C07.lean)
+        return 'defaultRa %s' % flist(us)
     return 'uniformRA %s %s %s' % (f2b(lo), f2b(hi), flist(us))
 
 
@@ -612,7 +902,9 @@ def corr_eval(lines, plan, answers):
                 return 'step %d: driver does not understand %r' % (k, ln)
             head = parse_head(last.split(' | ')[0])
             errs += head['errs']
-            if ln.startswith(('genFixed', 'genMC', 'genComp', 'genSig ', 'genSigMC')):
+            if head.get('same') == 0:
+                return 'step %d (%s): the model\'s Pseudo.doTrial differs from its staged replay in the driver' % (k, op['op'])
+            if ln.startswith(('genFixed', 'genMC', 'genComp', 'genSig ', 'genSigMC', 'fixedBkg', 'scramble ', 'inject ')):
                 new_id = head['h']
         mres = 'ok' if errs == 0 else 'err'
         if (res == 'ok') != (mres == 'ok'):
@@ -675,6 +967,61 @@ def corr_eval(lines, plan, answers):
 def _short(x):
     s = repr(x)
     return s if len(s) < 300 else s[:300] + '…'
+
+
+R7_BRANCHES = ['scrambleData:copy', 'scrambleData:in-place', 'fixedBkg:copy keyword of the source', 'inject:no signal (mean_n_sig=0)',
+               'injectPlan:events None -> the signal container', 'injectPlan:append', 'runHE:append raises, call aborted',
+               'trial:None,None raises', 'trial:None background, signal adopted', 'trial:no signal', 'trial:merge then trial',
+               'trial:merge raises, trial not initialised', 'doTrial:no signal', 'doTrial:signal injected']
+
+
+def r7_branch(line, answer):
+    """which branch of the round-7 model functions a request went through (from the request and the model's answer)"""
+    t = line.split(' ')
+    ret = ' ret=1 ' in answer.split(' | ')[0] + ' '
+    if t[0] == 'scramble':
+        return 'scrambleData:copy' if t[2] == '1' else 'scrambleData:in-place'
+    if t[0] == 'fixedBkg':
+        return 'fixedBkg:copy keyword of the source'
+    if t[0] == 'inject':
+        if t[2] == 'N':
+            return 'inject:no signal (mean_n_sig=0)'
+        if t[1] == 'N':
+            return 'injectPlan:events None -> the signal container'
+        return 'injectPlan:append' if ret else 'runHE:append raises, call aborted'
+    if t[0] == 'doTrial':
+        return 'doTrial:no signal' if t[3] == 'N' else 'doTrial:signal injected'
+    if t[0] == 'trialBkgSig':
+        if t[1] == 'N' and t[2] == 'N':
+            return 'trial:None,None raises'
+        if t[1] == 'N':
+            return 'trial:None background, signal adopted'
+        if t[2] == 'N':
+            return 'trial:no signal'
+        return 'trial:merge then trial' if ret else 'trial:merge raises, trial not initialised'
+    return None
+
+
+def directed_r7(rng, i):
+    """a history through every branch of scrambleData / injectPlan / compile7 / runHE; odd i: the experimental data lack a field
+    the MC background carries, so that appending the stub signal raises"""
+    while True:
+        spec = pf.gen_spec(rng)
+        if (i % 2 == 0) or spec.get('exp_lacks'):
+            break
+    scrs = pf.scramblers_for(spec)
+    sd = lambda: rng.randrange(1, 10**6)    # noqa: E731
+    ops = [{'op': 'genMC' if i % 2 else 'genFixed', 'seed': sd(), 'scr': rng.choice(scrs)},
+           {'op': 'scrambleGen', 'seed': sd(), 'h': 0, 'copy': True, 'scr': rng.choice(scrs)},
+           {'op': 'scrambleGen', 'seed': sd(), 'h': 1, 'copy': False, 'scr': rng.choice(scrs)},
+           {'op': 'inject', 'seed': sd(), 'b': None, 'k': 2},
+           {'op': 'inject', 'seed': sd(), 'b': 0, 'k': 1},
+           {'op': 'inject', 'seed': sd(), 'b': 1, 'k': 0},
+           {'op': 'trialBkgSig7', 'seed': sd(), 'b': 0, 's': 2},
+           {'op': 'trialBkgSig7', 'seed': sd(), 'b': None, 's': 2},
+           {'op': 'trialBkgSig7', 'seed': sd(), 'b': 1, 's': None},
+           {'op': 'trialBkgSig7', 'seed': sd(), 'b': None, 's': None}]
+    return {'spec': spec, 'ops': ops}
 
 
 def o_corr(ctx, case):
@@ -778,7 +1125,7 @@ def shrink(case, mode):
     ops = list(case['ops'][:r[2] + 1])
     i = len(ops) - 2
     while i >= 0:
-        if ops[i]['op'] not in ('genFixed', 'genMC', 'genComp', 'genSig', 'genSigReal', 'genSigRealRanges'):       # removing those shifts the handle numbers
+        if ops[i]['op'] not in ('genFixed', 'genMC', 'genComp', 'genSig', 'genSigReal', 'genSigRealRanges', 'scrambleGen', 'inject'):       # removing those shifts the handle numbers
             cand = ops[:i] + ops[i + 1:]
             rr = frame_check({'spec': case['spec'], 'ops': cand})
             if rr is not None and rr[0] == mode:
@@ -807,6 +1154,8 @@ def run(ctx):
     ctx.trusted_base += ['correspondence harness harness/props/c07.py + harness/pseudo_fixtures.py (exact comparison, values as bit patterns)',
                          'stub llhratio / pmm / test statistic / signal generator / event selection implementing the repository interfaces',
                          'scrambled values, drawn indices and the argsort permutation are inputs of the model (taken from the implementation)']
+    ctx.trusted_base += ['do_trial end to end: the background and signal the analysis generates from a seed are obtained from a twin random state '
+                         '(background method, then the stub signal generator, on the same stream)']
     ctx.assumptions += ['data-field functions and generators return arrays not referenced by the stored data',
                         'one MCDataSamplingBkgGenMethod instance per history (one _cache_mc)']
     # ---- scrambling contract
@@ -882,10 +1231,19 @@ def run(ctx):
     # ---- correspondence with the heap model (one driver batch)
     dis = 0
     batch, all_lines = [], []
+    n_dir = ctx.n(8, 40)
     for i in range(ctx.n(300, 4500)):
-        spec = pf.gen_spec(rng)
-        ops = gen_history(rng, rng.randrange(1, maxlen + 1), spec=spec)
-        case = {'spec': spec, 'ops': ops}
+        if i < n_dir:
+            case = directed_r7(rng, i)
+            ops = case['ops']
+            ctx.count('corr-directed-r7')
+            r = frame_check(case)
+            if r:
+                ctx.violation('frame', case, r[3], signature='C07/%s/%s' % (r[1], r[0]))
+        else:
+            spec = pf.gen_spec(rng)
+            ops = gen_history(rng, rng.randrange(1, maxlen + 1), spec=spec)
+            case = {'spec': spec, 'ops': ops}
         for op in ops:
             ctx.count('corr-op:' + op['op'])
         ctx.case(key=('corr', case), desc={'correspondence': case} if i % 397 == 0 else None)
@@ -893,6 +1251,15 @@ def run(ctx):
         batch.append((case, lines, plan, len(all_lines)))
         all_lines += lines
     out = ctx.driver('C07', all_lines)
+    hits = {b: 0 for b in R7_BRANCHES}
+    for ln, ans in zip(all_lines, out):
+        b = r7_branch(ln, ans)
+        if b:
+            hits[b] += 1
+    ctx.extra['r7_model_branches'] = hits
+    for b, n in hits.items():
+        if n == 0:
+            ctx.note('C07: branch %r of the round-7 model was not exercised in this run' % b)
     for case, lines, plan, off in batch:
         d = corr_eval(lines, plan, out[off:off + len(lines)])
         if d:
@@ -917,7 +1284,11 @@ MANIFEST = dict(
           'data.exp and data.mc read the same afterwards (c07_frame) and share no location with any generated container '
           '(c07_no_alias_inv); scrambling changes only the assigned fields and keeps the length; the number of drawn MC events is n_bkg (rounded scaling with a pre-selection; executable model compared exactly); RA inside any configured range over the reals (no [0,2pi) assumption); the uniform RA is compared with lo+(hi-lo)u on the deviates numpy draws. The model is '
           'compared after every operation with a real LLHRatioAnalysis (public accessors, bit patterns, np.shares_memory); byte '
-          'snapshots of data.exp/data.mc are the failing-input oracle.'),
+          'snapshots of data.exp/data.mc are the failing-input oracle. Round 7: DataScrambler.scramble_data with its copy flag (either value, '
+          'on stored or generated containers), the signal-injection loop with None events / None signal, do_trial_with_given_bkg_and_sig_pseudo_data '
+          'and Analysis.do_trial end to end are model functions with Python exception semantics for the append that can raise (c07_compile7_targets, '
+          'c07_frame7, c07_do_trial_frame, c07_scramble_data_contract); the copy= keyword of the fixed background method, the default RA range and the '
+          'fields every scramble method assigns are read from the current source (Generated/C07.lean, *_for_current_source lemmas).'),
     note=('The pre-fix unblind (adopting data.exp itself) is kept in the model as unblindAdopt with a proved counterexample. IEEE corner '
           'cases of the RA range (float32 rounding at the upper bound, np.mod of a tiny negative) are checked on the implementation with a '
           'closed upper bound only. Stub collaborators stand in for llhratio, pmm, signal generator and event selection.'),
